@@ -36,4 +36,6 @@ def gen_one(rng, writer=None):
     if rng.random() < 0.3:          # the writer sits under FailOnSkipped
         events = evgen.fail_on_skipped(rng, events)
     return dict(features=feats, events=events, writer=writer or rng.choice(["libtest", "json", "junit", "basic"]),
-                verbose=rng.choice([0, 0, 1]), show_output=False)
+                verbose=rng.choice([0, 0, 1]), show_output=False,
+                # half of the cases: a sink that accepts only a few bytes per write() call (short writes are allowed by io::Write)
+                short_writes=rng.choice([None, None, None, 1, 3, 7, 64]))
